@@ -28,13 +28,14 @@ def _gen_source(o, excludes, post):
     lines = [
         "from %s import *" % o.module,
         "from chx.ob import REGISTRY as _R, U",
+        "from chx.chfix import reset_caches as _reset_caches",
         "_f = _R[(%r, %r)].fn" % (o.prop, o.oid),
         "def cond(%s) -> str:" % o.signature(),
         '    """',
     ]
     lines += ["    pre: %s" % p for p in pres if p and p != "True"]
     lines += ["    post: %s" % post, '    """']
-    lines += ["    return _f(%s)" % ", ".join(o.args)]
+    lines += ["    _reset_caches()", "    return _f(%s)" % ", ".join(o.args)]
     return "\n".join(lines) + "\n"
 
 
